@@ -62,6 +62,9 @@ type Func struct {
 	LitAlias     string
 	spawnCall    *ast.CallExpr
 	adoptedSpawn bool // adopted through a go statement (its body is a goroutine of its own)
+	// retSynth: for a single-use helper called as `x, y := h()`, the assignment each return stands for
+	retSynth   map[*ast.ReturnStmt]*ast.AssignStmt
+	synthOrder []*ast.AssignStmt
 
 	cfg *CFG
 }
